@@ -50,6 +50,7 @@ OPERANDS = ["x", "g(y)", "f > x", "x:@T", "*", "$z", "(x, y)", "!x", "x as w"]
 SHAPES = [
     "f > ({A}, {B})", "{A} as ({B})", "$({A})", "f(!({A}))", "f(!!({A}))", "f({A} {B})", "f(({A})", "f({A}))", "f > {A} > {B}",
     "f({A}) as {B}", "f({A}, {B}) = {A}", "f({A}:{B})", "f({A}~{B})", "{A}({B})",
+    "{A}, {B}", "({A}, {B}), {A}", "(({A}, {B}), {A}), x", "{A}, ({B}, {A})", "f(({A}, {B}), {A})",
     "", " ", "f,f", "f > g, x", "(f)", "f()", "f(x)(y)", "f > > x", "f(x, , y)", "f(x", "f)x", "f > x as", "as x", "f(x=)", "f(=1)",
     "f(x=1=2)", "f(x:y:z)", "f($)", "f(!)", "f(!!)", "!!x", "f(!!x)", "f(!x, !y)", "f(!x, !!y, !!z)", "f > $x > y", "* > x", "f(*)",
     "f > #bad", "f(#bad) > x", "f > x:T", "f > x:1", "f > x:f", "nofn > x", "f.nope > x", "1 > x", "'s' > x", "f > 's'", "f > 1",
@@ -109,7 +110,7 @@ def check_string(s, require, fpb):
     #    step 2: when that raised an allowed error there is nothing more to learn.
     if sel is None:
         return
-    for overridable in (False, True):
+    for overridable in (False, True, False):  # the plain attempt is repeated: a refusal must not wear off
         pr = None
         refused = None
         try:
@@ -141,7 +142,10 @@ def check_string(s, require, fpb):
                         require(nm in ("#enter", "#error", "#exit", "#receive", "#value", "#yield"),
                                 f"a selector with the unknown meta-variable {nm} was activated instead of refused",
                                 {"fp": f"{fpb}:accepted:unknown-hashvar", "string": s})
-            tags = set(sel.all_tags)
+            tags = set()  # computed here from the captures (the selector's own cached all_tags is part of what is checked)
+            for call in walk(sel):
+                for cap in call.captures:
+                    tags |= set(cap.tags)
             require(not (2 in tags and 1 not in tags), "a selector with !! but no ! was activated instead of refused",
                     {"fp": f"{fpb}:accepted:double-focus-without-focus", "string": s})
             if overridable:
